@@ -78,15 +78,29 @@ func vfQueueTexts(c *Client) ([]string, []int) {
 	if q == nil {
 		return nil, nil
 	}
-	q.RLock()
-	defer q.RUnlock()
-	var out []string
-	var ids []int
-	for _, e := range q.Uslice {
-		out = append(out, e.Stz)
-		ids = append(ids, e.Id)
+	type res struct {
+		out []string
+		ids []int
 	}
-	return out, ids
+	done := make(chan res, 1)
+	go func() {
+		q.RLock()
+		defer q.RUnlock()
+		var r res
+		for _, e := range q.Uslice {
+			r.out = append(r.out, e.Stz)
+			r.ids = append(r.ids, e.Id)
+		}
+		done <- r
+	}()
+	select {
+	case r := <-done:
+		return r.out, r.ids
+	case <-time.After(10 * time.Second):
+		// whoever holds the queue's lock is stuck (nothing in the library holds it across anything that can take long):
+		// report that instead of hanging with it - no model of the held list contains this entry
+		return []string{"<the lock of the unacknowledged queue was never released: its holder is stuck>"}, nil
+	}
 }
 
 func vfRouterBusy(r *Router) bool {
@@ -386,6 +400,11 @@ func vfC10RunSequential(run *vfkit.Run, cs *vfC10Case) {
 			// retransmission therefore fails: they must still be held
 			atomic.StoreInt32(&s.fc.failAll, 1)
 			if !s.ackAndSettle(st.N) {
+				// routing of the acknowledgement has not come to an end: is it stuck on the queue's own lock?
+				if got, _ := vfQueueTexts(s.c); len(got) == 1 && strings.HasPrefix(got[0], "<the lock of the unacknowledged queue") {
+					run.Violation("C10/held-list-unreachable:retransmission-write-fails", fmt.Sprintf("step %d: writes fail, <a h=%d/>: the routine that handles the acknowledgement never finished and holds the queue's lock - every later Send on the session blocks", i, st.N), cs)
+					return
+				}
 				run.Inconclusive("settle-watchdog")
 				return
 			}
